@@ -2,6 +2,7 @@
 import common as c
 
 CASE_T = "(flds * list (name * ival) * list vdef * list (name * xv) * bool * outcome (list (name * tv)))"
+DYN_CASE_T = "(flds * list (name * ival) * list vdef * list (name * xv) * bool * outcome (list (name * option xv)))"
 SPEC = {
     "pid": "C06",
     "facts": [],
@@ -11,10 +12,18 @@ SPEC = {
     "streams": [
         {"kind": "CASE", "type": CASE_T,
          "eval": "fun c => let '(s, a, d, v, m, i) := c in check_c06 s a d v m i", "per_shard": 120},
+        # dynamic schemas (harness c06d): ctx.args of a dynamic resolver against CoerceArgumentValues
+        {"kind": "DYN_CASE", "requires": "From AG Require Import ArgCoerceDyn.", "def_type": "flds",
+         "type": DYN_CASE_T,
+         "eval": "fun c => let '(s, a, d, v, m, i) := c in check_c06d s a d v m i", "per_shard": 120,
+         "classes": {1: "dynamic-raw-value-not-coerced", 2: "dynamic-invalid-request-executed"},
+         "what_violation": "a dynamic resolver's ctx.args differ from the specified argument coercion (presence, default or value)"},
     ],
-    "classes": {1: "arg-default-omitted-variable", 2: "enum-string-literal", 3: "nonnull-list-null-becomes-list-of-null",
+    "extra_bins": [{"bin": "c06d", "kind_prefix": "DYN_", "n_factor": 0.5}],
+    "classes": {1: "arg-default-omitted-variable",  # fixed in /repo d9e053e: the model no longer produces class 1
+                2: "enum-string-literal", 3: "nonnull-list-null-becomes-list-of-null",
                 4: "unknown-input-field-ignored", 5: "oneof-extra-omitted-member", 6: "variable-declared-type-unchecked"},
-    "n_quick": 1500, "n_thorough": 40000,
+    "n_quick": 1000, "n_thorough": 4000,
     "level": "proof",
     "what_violation": "resolver received argument values other than the specified coercion result (or the request failed although coercion succeeds)",
     "rule": ("derive-built schema with 27 echo resolvers over Int, Int!, String, Boolean, enum, [Int], [Int!]!, [Int]!, [[Int]], [[Int!]!]!, "
@@ -23,7 +32,8 @@ SPEC = {
              "literals, omitted variables, explicit nulls, variable defaults, wrong shapes; strict and fast validation mode; fixed corpus of "
              "230 boundary cases and witnesses first; distinct by (mode, document, variables); non-trivial = the resolver ran or a "
              "variable was involved"),
-    "trusted": ["harness: echo resolvers (Echo trait), case printer (arguments/variable definitions are read back from the real parser's AST), "
+    "trusted": ["harness c06d: dynamic schema builder from the same descriptors (checked against the dynamic schema's SDL), ctx.args recorder",
+                "harness: echo resolvers (Echo trait), case printer (arguments/variable definitions are read back from the real parser's AST), "
                 "signature descriptors (checked against the SDL the macros registered on every run)",
                 "differential sampling: ArgCoerce.v parse/erase/strict_ok = InputType::parse family / resolve_input_value / strict rules on this run's cases"],
     "assumptions": [
@@ -35,7 +45,9 @@ SPEC = {
         "or to pass values of the declared types",
         "Int, String, Boolean, enum, list, input object, oneOf, Option, MaybeUndefined; no Float/ID/custom scalars (C07), no recursive input types, "
         "no duplicate keys, every defined variable is used",
-        "static schemas only; the dynamic flavour (src/dynamic) is not covered by this check",
+        "dynamic schemas (stream DYN_CASE): what is compared is ctx.args per declared argument (absent / raw value) with the raw form of the specified "
+        "coercion result; objects compared as maps, an enum value spelled as a string equals the enum value (ValueAccessor::enum_name accepts both); "
+        "error kinds are not compared on the dynamic path",
     ],
 }
 
